@@ -40,6 +40,9 @@ func (c c05Case) frame(e event) frameSpec {
 	switch e.Kind {
 	case "plain":
 		return frameSpec{ID: 0x0002, Phone: phoneFor(false), Serial: e.Ser, Body: e.Body}
+	case "plain_same_id": // an ordinary, unfragmented message that carries the message ID of a transfer
+		tr := c.Transfers[e.T]
+		return frameSpec{ID: tr.ID, V2019: tr.V2019, Phone: phoneFor(tr.V2019), Serial: e.Ser, Body: e.Body}
 	case "impossible":
 		tr := c.Transfers[e.T]
 		return frameSpec{ID: tr.ID, V2019: tr.V2019, Phone: phoneFor(tr.V2019), Serial: e.Ser, Fragmented: true, Total: uint16(len(tr.Bodies)), No: e.No, Body: e.Body}
@@ -133,6 +136,9 @@ func genC05(t *rapid.T) c05Case {
 			queues[k] = fresh
 		}
 		switch rapid.IntRange(0, 7).Draw(t, "extra") {
+		case 2: // ordinary (unfragmented) message with the ID of a started transfer: it belongs to no transfer
+			c.Events = append(c.Events, event{Kind: "plain_same_id", T: k, Ser: ser, Body: genBody(t, rapid.IntRange(0, 8).Draw(t, "same_len"), "same_body")})
+			ser++
 		case 0: // ordinary message in between
 			c.Events = append(c.Events, event{Kind: "plain", Ser: ser, Body: nil})
 			ser++
@@ -186,7 +192,7 @@ func checkC05(c c05Case, _ *kit.Collector) kit.Result {
 	completesWant := make([]int, len(c.Transfers)) // completed deliveries expected so far
 	completesGot := make([]int, len(c.Transfers))
 	consumed, next := 0, 0
-	dups, imposs, outOfOrder := false, false, false
+	dups, imposs, outOfOrder, sameID := false, false, false, false
 	restartSeen := false
 	seenFirst := make([]bool, len(c.Transfers))
 	lastNo := make([]uint16, len(c.Transfers))
@@ -199,6 +205,8 @@ func checkC05(c c05Case, _ *kit.Collector) kit.Result {
 			switch e.Kind {
 			case "impossible":
 				imposs = true
+			case "plain_same_id":
+				sameID = true
 			case "pkt":
 				m := &models[e.T]
 				tr := c.Transfers[e.T]
@@ -289,6 +297,7 @@ func checkC05(c c05Case, _ *kit.Collector) kit.Result {
 	}
 	lab(dups, "duplicates")
 	lab(imposs, "impossible_packet")
+	lab(sameID, "unfragmented_message_with_a_transfers_id")
 	lab(outOfOrder, "out_of_order")
 	lab(len(c.Transfers) == 2, "two_transfers")
 	lab(restartSeen, "transfer_restarted")
